@@ -289,18 +289,20 @@ Section Inc.
     - intros H; inversion H; subst; split; reflexivity.
   Qed.
 
-  (* every lexeme but a successful INCLUDE leaves scanner and stack alone *)
+  (* every lexeme but a successful INCLUDE leaves scanner and stack alone; before an INCLUDE the
+     pending directive is placed (s0 = the state after that) *)
   Lemma process_lexeme_stack s l s' :
     process_lexeme s l = COk s' ->
     (cs_sc s' = cs_sc s /\ cs_stack s' = cs_stack s) \/
-    (exists kw, lexkind_eqb (lk l) LKeyword = true /\ value_of (cs_sc s) l = COk kw /\
-                beq kw (kind_keyword KInclude) = true /\ process_include s l = COk s').
+    (exists kw s0, lexkind_eqb (lk l) LKeyword = true /\ value_of (cs_sc s) l = COk kw /\
+                beq kw (kind_keyword KInclude) = true /\ flush_cur s = COk s0 /\ process_include s0 l = COk s').
   Proof.
     unfold Core.process_lexeme.
     destruct (lexkind_eqb (lk l) LKeyword) eqn:Hk.
     - destruct (value_of (cs_sc s) l) as [kw| | |] eqn:Hv; cbn [cbind]; try discriminate.
       destruct (beq kw (kind_keyword KInclude)) eqn:Hi.
-      + intros H. right. exists kw. repeat split; assumption.
+      + destruct (flush_cur s) as [s0| | |] eqn:H0; cbn [cbind]; try discriminate.
+        intros H. right. exists kw, s0. repeat split; assumption.
       + intros H. left. eapply process_keyword_keeps; exact H.
     - destruct (lexkind_eqb (lk l) LContextExplicitClosing).
       + destruct (flush_cur s) as [s1| | |] eqn:H1; cbn [cbind]; try discriminate.
@@ -317,6 +319,12 @@ Section Inc.
         { intros H; inversion H; subst; left; split; reflexivity. }
         destruct (lexkind_eqb (lk l) LContextExplicitOpening); [|discriminate].
         intros H; inversion H; subst; left; split; reflexivity.
+  Qed.
+
+  (* placing the pending directive leaves the names of the suspended scanners alone *)
+  Lemma flush_cur_stack_names s s0 : flush_cur s = COk s0 -> stack_names s0 = stack_names s /\ cs_sc s0 = cs_sc s.
+  Proof.
+    intros H. destruct (flush_cur_keeps _ _ H) as [Hsc [Hst _]]. unfold stack_names. rewrite Hst. split; [reflexivity|exact Hsc].
   Qed.
 
   (* ---- the run as a sequence of steps ---- *)
@@ -411,9 +419,10 @@ Section Inc.
   Lemma scan_step_nodup s s' : stack_nodup s -> scan_step s s' -> stack_nodup s'.
   Proof.
     intros Hnd H. destruct H as [x1 l s' Hn Hp | x1 s1 x at_ rest Hn Hf Hu Hst].
-    - apply process_lexeme_stack in Hp. destruct Hp as [[_ Hst]|[kw [_ [_ [_ Hinc]]]]].
+    - apply process_lexeme_stack in Hp. destruct Hp as [[_ Hst]|[kw [s0 [_ [_ [_ [H0 Hinc]]]]]]].
       + unfold stack_nodup, stack_names. rewrite Hst. exact Hnd.
-      + eapply process_include_nodup; [|exact Hinc]. exact Hnd.
+      + eapply process_include_nodup; [|exact Hinc].
+        destruct (flush_cur_stack_names _ _ H0) as [Hnm _]. unfold stack_nodup. rewrite Hnm. exact Hnd.
     - destruct (flush_cur_keeps _ _ Hf) as [_ [Hst1 _]]. simpl in Hst1.
       unfold stack_nodup, stack_names in *. simpl. rewrite <- Hst1, Hst in Hnd. simpl in Hnd.
       inversion Hnd; assumption.
@@ -446,11 +455,12 @@ Section Inc.
   Proof.
     intros HA [Hc Hs] H. destruct H as [x1 l s' Hn Hp | x1 s1 x at_ rest Hn Hf Hu Hst].
     - destruct (sc_next_same_file _ _ _ _ _ Hn) as [Hfile _].
-      apply process_lexeme_stack in Hp. destruct Hp as [[Hsc Hst]|[kw [_ [_ [_ Hinc]]]]].
+      apply process_lexeme_stack in Hp. destruct Hp as [[Hsc Hst]|[kw [s0 [_ [_ [_ [H0 Hinc]]]]]]].
       + unfold names_in, stack_names. rewrite Hsc, Hst. simpl. rewrite Hfile. split; assumption.
       + apply process_include_ok_inv in Hinc.
         destruct Hinc as [x2 [path [content [_ [Hval [Hstat [_ [Hf2 ->]]]]]]]].
-        simpl in *. unfold names_in, stack_names; simpl. rewrite Hfile in *. split.
+        destruct (flush_cur_keeps _ _ H0) as [Hsc0 [Hst0 _]]. rewrite Hsc0 in *.
+        simpl in *. unfold names_in, stack_names; simpl. rewrite Hst0. simpl. rewrite Hfile in *. split.
         * eapply HA; eassumption.
         * intros n [<-|Hin]; [rewrite Hf2; exact Hc|apply Hs; exact Hin].
     - destruct (flush_cur_keeps _ _ Hf) as [_ [Hst1 _]]. simpl in Hst1.
@@ -695,7 +705,9 @@ Section Access.
     destruct (lexkind_eqb (lk l) LKeyword); [|reflexivity].
     destruct (value_of (cs_sc s) l) as [kw| | |]; cbn [cbind]; try reflexivity.
     destruct (beq kw (kind_keyword KInclude)); [|reflexivity].
-    apply process_include_fs_access; exact H.
+    destruct (flush_cur s) as [s0| | |] eqn:H0; cbn [cbind]; try reflexivity.
+    destruct (flush_cur_keeps _ _ H0) as [Hsc _].
+    apply process_include_fs_access. rewrite Hsc. exact H.
   Qed.
 
   (* A = a set of names holding the files being scanned and closed under inclusion (in [files]);
@@ -751,19 +763,35 @@ Section Access.
   Qed.
 End Access.
 
-(* ---- a refused INCLUDE ends the scan with that diagnostic ---- *)
-Lemma include_rejection_stops_scan jsc enum files banned f s x1 l k :
+(* ---- a refused INCLUDE ends the scan with that diagnostic, once the directive read before it
+        has been placed (s0 = the state after that; were it misplaced, ITS diagnostic would come first) ---- *)
+Lemma include_rejection_stops_scan jsc enum files banned f s x1 l k s0 :
   Core.sc_next jsc enum (cs_sc s) = Ok (x1, Some l) ->
   lexkind_eqb (lk l) LKeyword = true ->
   value_of x1 l = COk (kind_keyword KInclude) ->
-  Core.process_include jsc enum files banned (upd_sc s x1) l = CErr (include_error (upd_sc s x1) l k) ->
+  flush_cur (upd_sc s x1) = COk s0 ->
+  Core.process_include jsc enum files banned s0 l = CErr (include_error s0 l k) ->
   Core.scan_project jsc enum files banned (S f) s = CErr (include_error s l k).
 Proof.
-  intros Hn Hk Hv Hp. rewrite scan_project_S, Hn.
-  unfold Core.process_lexeme. simpl cs_sc. rewrite Hk, Hv. cbn [cbind]. rewrite beq_refl, Hp.
+  intros Hn Hk Hv H0 Hp. rewrite scan_project_S, Hn.
+  unfold Core.process_lexeme. simpl cs_sc. rewrite Hk, Hv. cbn [cbind]. rewrite beq_refl, H0. cbn [cbind]. rewrite Hp.
   destruct (sc_next_same_file _ _ _ _ _ Hn) as [Hf _].
-  unfold include_error, with_scan_trace; simpl. rewrite Hf.
+  destruct (flush_cur_keeps _ _ H0) as [Hsc [Hst _]]. simpl in Hsc, Hst.
+  unfold include_error, with_scan_trace; simpl. rewrite Hsc, Hst, Hf.
   destruct (stack_trace (cs_stack s)); reflexivity.
+Qed.
+
+(* a misplaced directive before an INCLUDE: its diagnostic ends the scan, the INCLUDE is not looked at *)
+Lemma include_after_misplaced_directive jsc enum files banned f s x1 l e :
+  Core.sc_next jsc enum (cs_sc s) = Ok (x1, Some l) ->
+  lexkind_eqb (lk l) LKeyword = true ->
+  value_of x1 l = COk (kind_keyword KInclude) ->
+  flush_cur (upd_sc s x1) = CErr e ->
+  Core.scan_project jsc enum files banned (S f) s = with_scan_trace s (CErr e).
+Proof.
+  intros Hn Hk Hv H0. rewrite scan_project_S, Hn.
+  unfold Core.process_lexeme. simpl cs_sc. rewrite Hk, Hv. cbn [cbind]. rewrite beq_refl, H0. cbn [cbind].
+  unfold with_scan_trace. destruct (ce_trace e); reflexivity.
 Qed.
 
 (* ---- small projects, by computation (the scanner is the real one; no schema bodies occur) ---- *)
